@@ -182,6 +182,34 @@ pub trait Prop: Sync {
     }
 }
 
+/// The check's own regression inputs plus the committed replay files of repaired defects:
+/// `$VERIF_DIR/regressions/<ID>-*.json` (same format as a replay file; the `case` is executed
+/// before the seeded batch of every tier, a violation there is reported like any other).
+pub fn all_regressions<P: Prop>(p: &P) -> Vec<(String, P::Case)> {
+    let mut out = p.regressions();
+    let dir = std::env::var("VERIF_DIR").map(PathBuf::from).unwrap_or_else(|_| PathBuf::from("/verif")).join("regressions");
+    let mut files: Vec<PathBuf> = match std::fs::read_dir(&dir) {
+        Ok(rd) => rd.filter_map(|e| e.ok().map(|e| e.path())).collect(),
+        Err(_) => Vec::new(),
+    };
+    files.sort();
+    let prefix = format!("{}-", p.id());
+    for f in files {
+        let name = f.file_name().and_then(|n| n.to_str()).unwrap_or("").to_string();
+        if !name.starts_with(&prefix) || !name.ends_with(".json") {
+            continue;
+        }
+        let text = match std::fs::read_to_string(&f) {
+            Ok(t) => t,
+            Err(e) => panic!("cannot read regression input {}: {e}", f.display()),
+        };
+        let v: serde_json::Value = serde_json::from_str(&text).unwrap_or_else(|e| panic!("regression input {} is not JSON: {e}", f.display()));
+        let case: P::Case = serde_json::from_value(v["case"].clone()).unwrap_or_else(|e| panic!("regression input {} does not hold a case of {}: {e}", f.display(), p.id()));
+        out.push((name.trim_end_matches(".json").to_string(), case));
+    }
+    out
+}
+
 static LISTED: std::sync::OnceLock<Vec<(String, String)>> = std::sync::OnceLock::new();
 
 /// Is finding `id` of property `prop` listed in known_findings.json (status finding)?
@@ -454,7 +482,7 @@ fn run_index<P: Prop>(p: &P, opts: &Options, index: u64) -> Collected {
     let mut st = RunStats::default();
     let case = match guard(|| {
         if index >= REGRESSION_BASE {
-            p.regressions().into_iter().nth((index - REGRESSION_BASE) as usize).map(|(_, c)| c).expect("regression index")
+            all_regressions(p).into_iter().nth((index - REGRESSION_BASE) as usize).map(|(_, c)| c).expect("regression index")
         } else {
             p.generate(&rc)
         }
@@ -876,7 +904,7 @@ pub fn batch_main<P: Prop>(p: &P, opts: &Options) -> i32 {
 
     // 1. regression inputs for known findings and repaired defects
     let mut regression_count = 0u64;
-    let regs = p.regressions();
+    let regs = all_regressions(p);
     let (isolated, isolated_errors): (Vec<Collected>, Vec<(u64, String)>) = if p.plan(opts.tier).isolation == Isolation::Children && !regs.is_empty() {
         let (a, _) = run_children(p, opts, REGRESSION_BASE, regs.len() as u64, None);
         (a.violating, a.harness_errors)
